@@ -209,6 +209,6 @@ def check_any(ctx, case):
 
 
 FAMILIES = [
-    Family('generated', check_any, strategy=lambda tier: corr_case(), n=(4000, 80000)),
+    Family('generated', check_any, strategy=lambda tier: corr_case(), n=(4000, 240000)),
     Family('shipped', check_any, enumerate=enum_shipped),
 ]
